@@ -959,6 +959,12 @@ class Scores:
                 size=self.nb_hard_neg, n=nb_hard_neg, p=1.0 / self.nb_hard_neg
             )
 
+            # Try to have at least one hard positive and negative sample.
+            if nb_hard_pos > 0 and nb_pos_selected.sum() == 0:
+                nb_pos_selected[np.random.randint(self.nb_hard_pos)] = 1
+            if nb_hard_neg > 0 and nb_neg_selected.sum() == 0:
+                nb_neg_selected[np.random.randint(self.nb_hard_neg)] = 1
+
             pos_idx = np.repeat(np.arange(self.nb_hard_pos), nb_pos_selected)
             neg_idx = np.repeat(np.arange(self.nb_hard_neg), nb_neg_selected)
         else:
